@@ -164,6 +164,8 @@ package storage
 //@ assume func readTransaction
 //@   requires txn != nil
 //@   modifies nothing
+//@   -- C11 (zz_contracts_c11_verif.go): a stored transaction is found and decoded; its Extra is a function of the stored bytes
+//@   ensures [c11-found] err == nil && badger.kvget(*txn, TK(hash)) != 0 ==> result0 != nil && seq(result0.Extra) == TxExtraOf(badger.kvget(*txn, TK(hash)))
 
 //@ -- LastSnapshot seeds the node's counter after a restart (kernel.getTopologyCounter): the snapshot at the GREATEST occupied position.
 //@ -- maypanic: the explicit panics are the documented reactions to a store without any snapshot or a read error at startup.
